@@ -476,6 +476,8 @@ type c13Run struct {
 	Strace   bool     `json:"strace_write_delay"`
 	Driver   string   `json:"driver"` // binary | in-package
 	DirSeed  uint64   `json:"dir_seed"`
+	NBytes   int      `json:"file_bytes,omitempty"`
+	Dup      bool     `json:"duplicate_names_and_suffix_dirs,omitempty"`
 	Problems []string `json:"problems,omitempty"`
 }
 
@@ -662,7 +664,7 @@ func runC13(c *ev.Ctx) {
 			limit = 45 * time.Minute
 		}
 		pr := runProc(root, env, limit, argv...)
-		run := c13Run{Scale: bc.scale, S: bc.s, N: bc.n, Procs: bc.procs, Race: bc.race, Strace: bc.strace, Driver: "binary", DirSeed: gen.Mix(seed, 131, uint64(i))}
+		run := c13Run{Scale: bc.scale, S: bc.s, N: bc.n, Procs: bc.procs, Race: bc.race, Strace: bc.strace, Driver: "binary", DirSeed: gen.Mix(seed, 131, uint64(i)), NBytes: bc.nbytes, Dup: bc.dup}
 		key := fmt.Sprintf("binary:%s:s=%d:n=%d:procs=%d:race=%v:strace=%v", bc.scale, bc.s, bc.n, bc.procs, bc.race, bc.strace)
 		mu.Lock()
 		defer mu.Unlock()
@@ -736,6 +738,164 @@ type c20Case struct {
 	PrevS  int    `json:"previous_run_s,omitempty"`
 }
 
+// evalC20 runs one rdgen configuration in a fresh scratch directory and checks the post-state.
+func evalC20(cs c20Case, i int, work, bin, binRace, det string) (probs []string, undecided bool, pr procResult, key, wantRel string) {
+	cwd := filepath.Join(work, fmt.Sprintf("gen-%d", i))
+	_ = os.MkdirAll(cwd, 0o755)
+	defer os.RemoveAll(cwd)
+	wantDir := filepath.Join(cwd, "target", "data")
+	argv := []string{}
+	oArg := cs.Out
+	switch cs.Out {
+	case "":
+	case "ABS":
+		oArg = filepath.Join(cwd, "abs", "olute")
+		wantDir = oArg
+	case "trail/":
+		wantDir = filepath.Join(cwd, "trail")
+	default:
+		wantDir = filepath.Join(cwd, filepath.Clean(cs.Out))
+	}
+	pre := map[string][]byte{}
+	if cs.Pre {
+		_ = os.MkdirAll(wantDir, 0o755)
+		pre["keep.txt"] = []byte("unrelated")
+		pre["random_old.bin.bak"] = gen.NewRng(9).Bytes(33)
+		pre["random7.bin.bak"] = []byte{1, 2, 3}
+		for n, b := range pre {
+			_ = os.WriteFile(filepath.Join(wantDir, n), b, 0o644)
+		}
+	}
+	exe := bin
+	if cs.Race {
+		exe = binRace
+	}
+	argv = append(argv, exe, "-s", fmt.Sprint(cs.S), "-n", fmt.Sprint(cs.N))
+	if cs.Out != "" {
+		argv = append(argv, "-o="+oArg)
+	}
+	if cs.Strace {
+		argv = append([]string{"strace", "-f", "-o", "/dev/null", "-e", "trace=write,openat", "-e", "inject=write:delay_exit=2000:when=3+", "-e", "inject=openat:delay_enter=1500:when=20+"}, argv...)
+	}
+	if cs.CPUs > 0 {
+		argv = append([]string{"taskset", "-c", fmt.Sprintf("0-%d", cs.CPUs-1)}, argv...)
+	}
+	env := append(os.Environ(), "GOTRACEBACK=all")
+	if cs.Procs > 0 {
+		env = append(env, fmt.Sprintf("GOMAXPROCS=%d", cs.Procs))
+	}
+	if cs.Race {
+		env = append(env, "GORACE=halt_on_error=0 log_path="+filepath.Join(work, fmt.Sprintf("race-gen-%d", i)))
+	}
+	if cs.PrevN > 0 {
+		// the earlier run: same command line with the previous sample length
+		prev := append([]string(nil), argv...)
+		for j := range prev {
+			if prev[j] == "-n" {
+				prev[j+1] = fmt.Sprint(cs.PrevN)
+			}
+			if prev[j] == "-s" {
+				prev[j+1] = fmt.Sprint(cs.PrevS)
+			}
+		}
+		runProc(cwd, env, 10*time.Minute, prev...)
+	}
+	pr = runProc(cwd, env, 10*time.Minute, argv...)
+	key = fmt.Sprintf("rdgen:s=%d:n=%d:o=%q:cpus=%d:procs=%d:race=%v:strace=%v:prev_n=%d", cs.S, cs.N, cs.Out, cs.CPUs, cs.Procs, cs.Race, cs.Strace, cs.PrevN)
+	if pr.Status == "timeout" {
+		undecided = true
+	} else if pr.Status != "exited" || pr.Exit != 0 {
+		probs = append(probs, fmt.Sprintf("rdgen did not terminate normally (%s, exit %d): %s", pr.Status, pr.Exit, tailStr(pr.Stderr, 800)))
+	} else {
+		// post-state
+		found := map[string]int64{}
+		contents := map[string]string{}
+		_ = filepath.Walk(cwd, func(p string, fi os.FileInfo, err error) error {
+			if err != nil || fi.IsDir() {
+				return nil
+			}
+			rel, _ := filepath.Rel(wantDir, p)
+			if strings.HasPrefix(rel, "..") {
+				probs = append(probs, fmt.Sprintf("file created outside the requested directory: %s", strings.TrimPrefix(p, cwd+"/")))
+				return nil
+			}
+			found[rel] = fi.Size()
+			return nil
+		})
+		if len(probs) > 3 {
+			probs = append(probs[:3], fmt.Sprintf("... and %d more files outside", len(probs)-3))
+		}
+		for n, b := range pre {
+			got, err := os.ReadFile(filepath.Join(wantDir, n))
+			if err != nil || !bytes.Equal(got, b) {
+				probs = append(probs, "pre-existing file "+n+" was changed or removed")
+			}
+			delete(found, n)
+		}
+		for j := 0; j < cs.S; j++ {
+			name := fmt.Sprintf("random%d.bin", j)
+			sz, ok := found[name]
+			if !ok {
+				probs = append(probs, fmt.Sprintf("%s missing from %s", name, strings.TrimPrefix(wantDir, cwd+"/")))
+				if len(probs) > 6 {
+					break
+				}
+				continue
+			}
+			if sz != int64(cs.N/8) {
+				probs = append(probs, fmt.Sprintf("%s has %d bytes, want %d", name, sz, cs.N/8))
+			}
+			delete(found, name)
+			if cs.N >= 256 && cs.N <= 1000000 {
+				b, _ := os.ReadFile(filepath.Join(wantDir, name))
+				if other, dup := contents[string(b)]; dup {
+					probs = append(probs, fmt.Sprintf("%s and %s have identical contents", name, other))
+				}
+				contents[string(b)] = name
+			}
+		}
+		for n := range found {
+			probs = append(probs, "unexpected file in the output directory: "+n)
+			if len(probs) > 8 {
+				break
+			}
+		}
+		// acceptance by rddetector
+		if cs.Accept && len(probs) == 0 {
+			rep := filepath.Join(cwd, "accept.csv")
+			if cs.N == 100000000 {
+				// only until the start-up line is printed
+				cmd := exec.Command(det, "-i", wantDir, "-o", rep, "-n", "1")
+				var se bytes.Buffer
+				cmd.Stderr = &se
+				_ = cmd.Start()
+				deadline := time.Now().Add(5 * time.Minute)
+				for time.Now().Before(deadline) && !strings.Contains(se.String(), "bits =") {
+					time.Sleep(100 * time.Millisecond)
+				}
+				_ = cmd.Process.Kill()
+				_, _ = cmd.Process.Wait()
+				want := fmt.Sprintf("s = %d 样本数据规模 bits = %d", cs.S, cs.N)
+				if !strings.Contains(se.String(), want) {
+					probs = append(probs, fmt.Sprintf("rddetector start-up line does not say %q: %s", want, tailStr(se.String(), 300)))
+				}
+			} else {
+				dr := runProc(cwd, os.Environ(), 30*time.Minute, det, "-i", wantDir, "-o", rep)
+				want := fmt.Sprintf("s = %d 样本数据规模 bits = %d", cs.S, cs.N)
+				if dr.Status == "timeout" {
+					undecided = true
+				} else if dr.Exit != 0 || !strings.Contains(dr.Stderr, want) {
+					probs = append(probs, fmt.Sprintf("rddetector did not accept the directory as %q (exit %d): %s", want, dr.Exit, tailStr(dr.Stderr, 300)))
+				} else if b, err := os.ReadFile(rep); err != nil || strings.Count(string(b), "\n") != cs.S+1 {
+					probs = append(probs, fmt.Sprintf("rddetector report has %d lines for %d samples", strings.Count(string(b), "\n"), cs.S))
+				}
+			}
+		}
+	}
+	wantRel = strings.TrimPrefix(wantDir, cwd+"/")
+	return
+}
+
 func runC20(c *ev.Ctx) {
 	c.Rule = "each case = one run of the built rdgen in a fresh scratch working directory: exit 0; the set of files under the requested output directory (default target/data) is exactly random0.bin..random(s-1).bin plus whatever was there before (unchanged); every size is n/8; contents pairwise different (n >= 256 bits); nothing created elsewhere under the working directory; for the supported sizes rddetector accepts the directory as s samples of n bits. Varied: s in {1,2,3,17,64,300}, n in {8,64,20000,10^6,98760,10^8}, -o absent / relative / ./a/b/c / absolute / pre-existing with unrelated files / trailing slash / a directory already used by an earlier rdgen run with longer, shorter or equal samples, 1/2/16 CPUs via taskset, GOMAXPROCS 1/16, strace-delayed write/openat, -race build. non-trivial = every run (each has its own post-state); distinct = distinct configuration"
 	c.Assumptions = []string{"file-system post-state is read after the process exited"}
@@ -793,160 +953,7 @@ func runC20(c *ev.Ctx) {
 	var mu sync.Mutex
 	parallelN(8, len(cases), func(i int) {
 		cs := cases[i]
-		cwd := filepath.Join(work, fmt.Sprintf("gen-%d", i))
-		_ = os.MkdirAll(cwd, 0o755)
-		defer os.RemoveAll(cwd)
-		wantDir := filepath.Join(cwd, "target", "data")
-		argv := []string{}
-		oArg := cs.Out
-		switch cs.Out {
-		case "":
-		case "ABS":
-			oArg = filepath.Join(cwd, "abs", "olute")
-			wantDir = oArg
-		case "trail/":
-			wantDir = filepath.Join(cwd, "trail")
-		default:
-			wantDir = filepath.Join(cwd, filepath.Clean(cs.Out))
-		}
-		pre := map[string][]byte{}
-		if cs.Pre {
-			_ = os.MkdirAll(wantDir, 0o755)
-			pre["keep.txt"] = []byte("unrelated")
-			pre["random_old.bin.bak"] = gen.NewRng(9).Bytes(33)
-			pre["random7.bin.bak"] = []byte{1, 2, 3}
-			for n, b := range pre {
-				_ = os.WriteFile(filepath.Join(wantDir, n), b, 0o644)
-			}
-		}
-		exe := bin
-		if cs.Race {
-			exe = binRace
-		}
-		argv = append(argv, exe, "-s", fmt.Sprint(cs.S), "-n", fmt.Sprint(cs.N))
-		if cs.Out != "" {
-			argv = append(argv, "-o="+oArg)
-		}
-		if cs.Strace {
-			argv = append([]string{"strace", "-f", "-o", "/dev/null", "-e", "trace=write,openat", "-e", "inject=write:delay_exit=2000:when=3+", "-e", "inject=openat:delay_enter=1500:when=20+"}, argv...)
-		}
-		if cs.CPUs > 0 {
-			argv = append([]string{"taskset", "-c", fmt.Sprintf("0-%d", cs.CPUs-1)}, argv...)
-		}
-		env := append(os.Environ(), "GOTRACEBACK=all")
-		if cs.Procs > 0 {
-			env = append(env, fmt.Sprintf("GOMAXPROCS=%d", cs.Procs))
-		}
-		if cs.Race {
-			env = append(env, "GORACE=halt_on_error=0 log_path="+filepath.Join(work, fmt.Sprintf("race-gen-%d", i)))
-		}
-		if cs.PrevN > 0 {
-			// the earlier run: same command line with the previous sample length
-			prev := append([]string(nil), argv...)
-			for j := range prev {
-				if prev[j] == "-n" {
-					prev[j+1] = fmt.Sprint(cs.PrevN)
-				}
-				if prev[j] == "-s" {
-					prev[j+1] = fmt.Sprint(cs.PrevS)
-				}
-			}
-			runProc(cwd, env, 10*time.Minute, prev...)
-		}
-		pr := runProc(cwd, env, 10*time.Minute, argv...)
-		key := fmt.Sprintf("rdgen:s=%d:n=%d:o=%q:cpus=%d:procs=%d:race=%v:strace=%v:prev_n=%d", cs.S, cs.N, cs.Out, cs.CPUs, cs.Procs, cs.Race, cs.Strace, cs.PrevN)
-		var probs []string
-		undecided := false
-		if pr.Status == "timeout" {
-			undecided = true
-		} else if pr.Status != "exited" || pr.Exit != 0 {
-			probs = append(probs, fmt.Sprintf("rdgen did not terminate normally (%s, exit %d): %s", pr.Status, pr.Exit, tailStr(pr.Stderr, 800)))
-		} else {
-			// post-state
-			found := map[string]int64{}
-			contents := map[string]string{}
-			_ = filepath.Walk(cwd, func(p string, fi os.FileInfo, err error) error {
-				if err != nil || fi.IsDir() {
-					return nil
-				}
-				rel, _ := filepath.Rel(wantDir, p)
-				if strings.HasPrefix(rel, "..") {
-					probs = append(probs, fmt.Sprintf("file created outside the requested directory: %s", strings.TrimPrefix(p, cwd+"/")))
-					return nil
-				}
-				found[rel] = fi.Size()
-				return nil
-			})
-			if len(probs) > 3 {
-				probs = append(probs[:3], fmt.Sprintf("... and %d more files outside", len(probs)-3))
-			}
-			for n, b := range pre {
-				got, err := os.ReadFile(filepath.Join(wantDir, n))
-				if err != nil || !bytes.Equal(got, b) {
-					probs = append(probs, "pre-existing file "+n+" was changed or removed")
-				}
-				delete(found, n)
-			}
-			for j := 0; j < cs.S; j++ {
-				name := fmt.Sprintf("random%d.bin", j)
-				sz, ok := found[name]
-				if !ok {
-					probs = append(probs, fmt.Sprintf("%s missing from %s", name, strings.TrimPrefix(wantDir, cwd+"/")))
-					if len(probs) > 6 {
-						break
-					}
-					continue
-				}
-				if sz != int64(cs.N/8) {
-					probs = append(probs, fmt.Sprintf("%s has %d bytes, want %d", name, sz, cs.N/8))
-				}
-				delete(found, name)
-				if cs.N >= 256 && cs.N <= 1000000 {
-					b, _ := os.ReadFile(filepath.Join(wantDir, name))
-					if other, dup := contents[string(b)]; dup {
-						probs = append(probs, fmt.Sprintf("%s and %s have identical contents", name, other))
-					}
-					contents[string(b)] = name
-				}
-			}
-			for n := range found {
-				probs = append(probs, "unexpected file in the output directory: "+n)
-				if len(probs) > 8 {
-					break
-				}
-			}
-			// acceptance by rddetector
-			if cs.Accept && len(probs) == 0 {
-				rep := filepath.Join(cwd, "accept.csv")
-				if cs.N == 100000000 {
-					// only until the start-up line is printed
-					cmd := exec.Command(det, "-i", wantDir, "-o", rep, "-n", "1")
-					var se bytes.Buffer
-					cmd.Stderr = &se
-					_ = cmd.Start()
-					deadline := time.Now().Add(5 * time.Minute)
-					for time.Now().Before(deadline) && !strings.Contains(se.String(), "bits =") {
-						time.Sleep(100 * time.Millisecond)
-					}
-					_ = cmd.Process.Kill()
-					_, _ = cmd.Process.Wait()
-					want := fmt.Sprintf("s = %d 样本数据规模 bits = %d", cs.S, cs.N)
-					if !strings.Contains(se.String(), want) {
-						probs = append(probs, fmt.Sprintf("rddetector start-up line does not say %q: %s", want, tailStr(se.String(), 300)))
-					}
-				} else {
-					dr := runProc(cwd, os.Environ(), 30*time.Minute, det, "-i", wantDir, "-o", rep)
-					want := fmt.Sprintf("s = %d 样本数据规模 bits = %d", cs.S, cs.N)
-					if dr.Status == "timeout" {
-						undecided = true
-					} else if dr.Exit != 0 || !strings.Contains(dr.Stderr, want) {
-						probs = append(probs, fmt.Sprintf("rddetector did not accept the directory as %q (exit %d): %s", want, dr.Exit, tailStr(dr.Stderr, 300)))
-					} else if b, err := os.ReadFile(rep); err != nil || strings.Count(string(b), "\n") != cs.S+1 {
-						probs = append(probs, fmt.Sprintf("rddetector report has %d lines for %d samples", strings.Count(string(b), "\n"), cs.S))
-					}
-				}
-			}
-		}
+		probs, undecided, pr, key, wantRel := evalC20(cs, i, work, bin, binRace, det)
 		mu.Lock()
 		defer mu.Unlock()
 		c.Count("rdgen_runs", 1)
@@ -970,12 +977,80 @@ func runC20(c *ev.Ctx) {
 			vkey := fmt.Sprintf("rdgen:o=%q:%s", cs.Out, clip(probs[0], 50))
 			c.Violation(vkey, strings.Join(probs, "; ")+" ["+key+"]", "c20", cs)
 		} else if c.NSamples() < 5 {
-			c.Sample(map[string]interface{}{"config": cs, "post_state": fmt.Sprintf("%d files of %d bytes in %s, nothing elsewhere", cs.S, cs.N/8, strings.TrimPrefix(wantDir, cwd+"/")), "wall_ms": pr.Duration.Milliseconds()})
+			c.Sample(map[string]interface{}{"config": cs, "post_state": fmt.Sprintf("%d files of %d bytes in %s, nothing elsewhere", cs.S, cs.N/8, wantRel), "wall_ms": pr.Duration.Milliseconds()})
 		}
 	})
 	total, distinct, sample := raceReports(work)
 	c.Count("race_detector_reports", int64(total))
 	for k, n := range distinct {
 		c.Violation("race:"+k, fmt.Sprintf("%d DATA RACE report(s), first:\n%s", n, sample), "race", k)
+	}
+}
+
+func init() {
+	replayers["c20"] = func(raw json.RawMessage) (bool, string) {
+		var cs c20Case
+		if err := json.Unmarshal(raw, &cs); err != nil {
+			return false, err.Error()
+		}
+		work := os.Getenv("VERIF_WORK")
+		bin, err := buildTool("rdgen", work, false)
+		if err != nil {
+			return false, err.Error()
+		}
+		binRace, err := buildTool("rdgen", work, true)
+		if err != nil {
+			return false, err.Error()
+		}
+		det, err := buildTool("rddetector", work, false)
+		if err != nil {
+			return false, err.Error()
+		}
+		probs, und, _, key, _ := evalC20(cs, 0, work, bin, binRace, det)
+		if und {
+			return false, "watchdog fired: inconclusive"
+		}
+		return len(probs) > 0, key + ": " + strings.Join(probs, "; ")
+	}
+}
+
+func init() {
+	replayers["c13"] = func(raw json.RawMessage) (bool, string) {
+		var run c13Run
+		if err := json.Unmarshal(raw, &run); err != nil {
+			return false, err.Error()
+		}
+		if run.Driver != "binary" || run.NBytes == 0 {
+			return false, "only binary-driver cases can be replayed singly; in-package cases need the full check: " + string(raw)
+		}
+		work := os.Getenv("VERIF_WORK")
+		exe, err := buildTool("rddetector", work, run.Race)
+		if err != nil {
+			return false, err.Error()
+		}
+		root := filepath.Join(work, "replay-bin")
+		d := makeSampleDir(filepath.Join(root, "in"), run.S, run.NBytes, run.DirSeed, run.Scale == "1E8", run.Dup)
+		report := filepath.Join(root, "out", "report.csv")
+		argv := []string{exe, "-i", d.Root, "-o", report, "-n", fmt.Sprint(run.N)}
+		if run.Strace {
+			argv = append([]string{"strace", "-f", "-o", "/dev/null", "-e", "trace=write", "-P", report, "-e", "inject=write:delay_exit=3000:when=2+"}, argv...)
+		}
+		pr := runProc(root, append(os.Environ(), fmt.Sprintf("GOMAXPROCS=%d", run.Procs), "GOTRACEBACK=all"), 45*time.Minute, argv...)
+		if pr.Status == "timeout" {
+			return false, "watchdog fired: inconclusive"
+		}
+		if pr.Status != "exited" || pr.Exit != 0 {
+			return true, fmt.Sprintf("rddetector did not terminate normally (%s, exit %d): %s", pr.Status, pr.Exit, tailStr(pr.Stderr, 800))
+		}
+		rep, err := os.ReadFile(report)
+		if err != nil {
+			return true, "no report written"
+		}
+		probs, cols, rows := checkReport(ev.New("C13", "exploration", "quick"), string(rep), "", d.Files, run.NBytes*8)
+		var msgs []string
+		for _, p := range probs {
+			msgs = append(msgs, p.Msg)
+		}
+		return len(probs) > 0, fmt.Sprintf("%d rows x %d columns checked (header constant not compared in replay): %s", rows, cols, strings.Join(msgs, "; "))
 	}
 }
